@@ -43,7 +43,8 @@ def recipes():
   return {
       "RA": [rule(".*", "*", srq)],                                             # everything static: TANH and RESHAPE write statistics
       "RB": [rule(".*", "FULLY_CONNECTED", srq), rule(".*", "ADD", srq)],        # static, but no same-scale / fixed-range operator
-      "RC": [rule(".*", "FULLY_CONNECTED", drq)],                               # dynamic range: no calibration
+      # dynamic range: no calibration; plus a no_quantize rule written the short way, without an 'op_config' key (legal for no_quantize)
+      "RC": [rule(".*", "FULLY_CONNECTED", drq), {"regex": ".*", "operation": "ADD", "algorithm_key": "no_quantize"}],
   }
 
 
